@@ -52,3 +52,15 @@ Lemma bundle_pinned_overflows :
   bundle_pinned (repeat 170 10) 0 [] = Oob /\
   bundle (repeat 170 10) 0 [] = Ok (0, repeat 0 10).
 Proof. vm_compute. split; reflexivity. Qed.
+
+From RtoscV Require Import Osc.OscBundleProofs.
+Lemma example_bundle_wf :
+  elem_wf (Bun 7 [Msg (enc_spec [47; 97; 98] [115; 91; 105; 98; 93; 84]
+                         [PStr [104; 101; 108; 108; 111]; P4 4294967295; PBlob 3 (Some [1; 2; 3])]);
+                  Bun 1 []]).
+Proof.
+  apply wf_bun; [lia| |vm_compute; reflexivity].
+  constructor; [|constructor; [|constructor]].
+  - apply wf_msg; [apply example_msg_wf | apply example_msg_wf | vm_compute; reflexivity].
+  - apply wf_bun; [lia | constructor | vm_compute; reflexivity].
+Qed.
